@@ -157,9 +157,19 @@ impl Engine {
     }
 
     /// the slots of a directory node in the cached walk
-    fn dir_has_free_slot(&self, vi: usize, dir: usize) -> bool {
+    /// where a directory node lives on the medium, per the cached walk (directories made during
+    /// the history are found by path: the model does not know their cluster)
+    pub fn dir_loc(&self, vi: usize, dir: usize) -> Option<DirLoc> {
         let n = &self.m.nodes[dir];
-        let loc = if n.is_root { if self.vs[vi].vol.fat32 { DirLoc::Cluster(self.vs[vi].vol.root_cluster) } else { DirLoc::Root16 } } else { DirLoc::Cluster(n.start) };
+        if n.is_root {
+            return Some(if self.vs[vi].vol.fat32 { DirLoc::Cluster(self.vs[vi].vol.root_cluster) } else { DirLoc::Root16 });
+        }
+        let path = self.m.path_of(dir);
+        self.vs[vi].walk.nodes.iter().find(|x| x.is_dir && x.path == path).map(|x| DirLoc::Cluster(x.start))
+    }
+
+    fn dir_has_free_slot(&self, vi: usize, dir: usize) -> bool {
+        let Some(loc) = self.dir_loc(vi, dir) else { return true };
         match self.vs[vi].walk.dir_slots.get(&loc) {
             Some(slots) => slots.iter().any(|s| s.is_end() || s.is_deleted()),
             None => true,
@@ -935,7 +945,8 @@ impl Engine {
         // space verdicts belong to C05
         let mut exp = exp;
         if exp.ok && exp.errs.is_empty() && res.err().map(is_space_error).unwrap_or(false) {
-            self.space_violation("C05.capacity-short", "create entry", format!("creating an entry failed with {} although a slot or a free cluster exists", res.short()));
+            let (free, has) = vi.map(|v| (self.vs[v].free, self.dir_has_free_slot(v, hd.node))).unwrap_or((0, false));
+            self.space_violation("C05.capacity-short", "create entry", format!("creating an entry failed with {} although a slot or a free cluster exists (free clusters {}, directory has a free slot: {}, directory start cluster {})", res.short(), free, has, self.m.nodes[hd.node].start));
             return;
         }
         if !exp.ok && exp.errs.contains(&Ek::DiskFull) && exp.errs.len() == 2 && res.is_ok() {
